@@ -128,7 +128,34 @@ Proof.
 Qed.
 
 (* ------------------------------------------------------------------ end-of-tag match *)
-Definition endstr_ok (e : str) : bool := head_not_sign e && negb (lsof e).
+(* an end string may start with '-' when it cannot be mistaken for "'-' followed by itself":
+   it differs from its own tail somewhere inside the tail (e.g. "-->": "-->" vs "->") *)
+Fixpoint mismatch_within (e b : str) : bool :=
+  match b, e with
+  | y :: b', x :: e' => negb (x =? y) || mismatch_within e' b'
+  | _, _ => false
+  end.
+
+Definition end_head_ok (e : str) : bool :=
+  match e with
+  | x :: e' => negb (x =? 43) && (negb (x =? 45) || mismatch_within e e')
+  | [] => false
+  end.
+
+Lemma prefixb_mismatch : forall b e Y, mismatch_within e b = true -> prefixb e (b ++ Y) = false.
+Proof.
+  induction b as [|y b IH]; intros e Y H; [destruct e; discriminate|].
+  destruct e as [|x e']; [discriminate|]. cbn [mismatch_within] in H. cbn [app prefixb].
+  destruct (x =? y) eqn:E; [|reflexivity]. cbn [negb orb andb] in *. apply IH. exact H.
+Qed.
+
+Lemma head_not_sign_end_head_ok : forall e, head_not_sign e = true -> end_head_ok e = true.
+Proof.
+  intros [|x e] H; [discriminate|]. cbn [head_not_sign end_head_ok] in *.
+  apply andb_true_iff in H as [H1 H2]. rewrite H1, H2. reflexivity.
+Qed.
+
+Definition endstr_ok (e : str) : bool := end_head_ok e && negb (lsof e).
 
 Lemma endstr_nonempty : forall e, endstr_ok e = true -> e <> [].
 Proof. intros [|x e] H; [discriminate|discriminate]. Qed.
@@ -142,13 +169,15 @@ Proof.
   - cbn [nonempty]. rewrite app_assoc. apply lsof_app. discriminate.
 Qed.
 
-Lemma end_alts_plain : forall po tr E Y, head_not_sign E = true ->
+Lemma end_alts_plain : forall po tr E Y, end_head_ok E = true ->
   end_alts po tr E (E ++ Y) = Some (length E + (if tr then nl_head Y else 0))%nat.
 Proof.
-  intros po tr E Y H. destruct E as [|x e]; [discriminate|]. cbn [head_not_sign] in H.
-  apply andb_true_iff in H as [H43 H45]. apply negb_true_iff in H43. apply negb_true_iff in H45.
-  change ((x :: e) ++ Y) with (x :: (e ++ Y)). unfold end_alts. rewrite H43, H45, andb_false_r. cbn [andb].
-  change (x :: e ++ Y) with ((x :: e) ++ Y). rewrite prefixb_app, skipn_app_len. reflexivity.
+  intros po tr E Y H. destruct E as [|x e]; [discriminate|]. cbn [end_head_ok] in H.
+  apply andb_true_iff in H as [H43 H45]. apply negb_true_iff in H43.
+  change ((x :: e) ++ Y) with (x :: (e ++ Y)). unfold end_alts. rewrite H43, andb_false_r. cbn [andb].
+  assert (H2 : (x =? 45) && prefixb (x :: e) (e ++ Y) = false).
+  { destruct (x =? 45); [|reflexivity]. cbn [negb orb andb] in *. apply prefixb_mismatch. exact H45. }
+  rewrite H2. change (x :: e ++ Y) with ((x :: e) ++ Y). rewrite prefixb_app, skipn_app_len. reflexivity.
 Qed.
 
 Lemma end_alts_minus : forall po tr E Y,
